@@ -14,14 +14,24 @@ def run(rec):
         shutil.copytree('/repo/pandora', os.path.join(tmp, 'pandora'), ignore=shutil.ignore_patterns('__pycache__'))
         diff = subprocess.run(['git', '-C', '/repo', 'show', '--format=', commit, '--', 'pandora'], capture_output=True, text=True).stdout
         p = subprocess.run(['patch', '-p1', '-R', '-s'], cwd=tmp, input=diff, capture_output=True, text=True)
+        how = 'reverse patch'
         if p.returncode:
-            return commit, {'property': prop, 'status': 'revert-does-not-apply', 'detail': (p.stdout + p.stderr)[-300:]}
+            # a later fix touched the same lines: fall back to the versions of the touched files just before this fix (which also drops the
+            # later fixes to those files -- the violation of this fix must still be reported)
+            shutil.rmtree(os.path.join(tmp, 'pandora')); shutil.copytree('/repo/pandora', os.path.join(tmp, 'pandora'), ignore=shutil.ignore_patterns('__pycache__'))
+            files = subprocess.run(['git', '-C', '/repo', 'show', '--format=', '--name-only', commit, '--', 'pandora'], capture_output=True, text=True).stdout.split()
+            for f in files:
+                old = subprocess.run(['git', '-C', '/repo', 'show', '%s^:%s' % (commit, f)], capture_output=True, text=True)
+                if old.returncode:
+                    return commit, {'property': prop, 'status': 'revert-does-not-apply', 'detail': old.stderr[-300:]}
+                open(os.path.join(tmp, f), 'w').write(old.stdout)
+            how = 'files as they were before the fix (%s)' % ', '.join(files)
         t0 = time.time()
         p = subprocess.run([os.path.join(V, 'vcheck'), prop, '--tier', 'quick'], env=dict(os.environ, VF_REPO=tmp), capture_output=True, text=True, timeout=7200)
         out = p.stdout + p.stderr
         viol = [l.strip()[:300] for l in out.splitlines() if l.strip().startswith('violation:')]
         return commit, {'property': prop, 'check_exit': p.returncode, 'status': 'reported-again' if p.returncode == 1 else ('NOT-reported' if p.returncode == 0 else 'harness-error'),
-                        'first_violation': viol[:1], 'wall_s': round(time.time() - t0), 'tail': out.strip().splitlines()[-3:] if p.returncode not in (0, 1) else []}
+                        'first_violation': viol[:1], 'wall_s': round(time.time() - t0), 'reverted_by': how, 'tail': out.strip().splitlines()[-3:] if p.returncode not in (0, 1) else []}
     finally:
         shutil.rmtree(tmp, ignore_errors=True)
 
